@@ -1,5 +1,6 @@
 (* M3 Link / WebSocket sender (property C06).  Model only, no proofs.
-   Transliteration of _WebsocketWrapper._create_frame (client.py 4819-4850) and _send_impl (4954-4974),
+   Transliteration of _WebsocketWrapper._create_frame and _send_impl (with the flag _data_pending that tells a
+   partly flushed DATA frame from a buffered control frame, see WsControl.v),
    used as the transport under Writer.packet_write; and an independent RFC 6455 section 5.2 frame
    parser / unmasker (parse_frame, deframe, frame_wf) that serves as the specification. *)
 From PahoV Require Import Base.Prelude Link.Writer.
@@ -42,10 +43,11 @@ Definition create_frame (opcode : Z) (data : list Z) (mask_flag : Z) (key : list
 Record wsst := mkws {
   sendbuf : list Z;      (* _sendbuffer *)
   req : Z;               (* _requested_size *)
-  nframes : nat          (* ghost: number of os.urandom(4) calls so far = index of the next mask key *)
+  nframes : nat;         (* ghost: number of os.urandom(4) calls so far = index of the next mask key *)
+  pend : bool            (* _data_pending: the frame of the packet offered last is not flushed completely *)
 }.
 
-Definition ws_init : wsst := mkws [] 0 O.
+Definition ws_init : wsst := mkws [] 0 O false.
 
 Definition is_nil {A} (l : list A) : bool := match l with [] => true | _ => false end.
 
@@ -53,21 +55,21 @@ Definition is_nil {A} (l : list A) : bool := match l with [] => true | _ => fals
 Definition ws_send (keyf : nat -> list Z) (t : wsst) (data : list Z) (s : list outcome)
   : sendres * wsst * list Z * list outcome :=
   let created :=
-    if is_nil (sendbuf t) then
+    if negb (pend t) then
       match create_frame 2 data 1 (keyf (nframes t)) with
-      | Some frame => Some (mkws (sendbuf t ++ frame) (zlen data) (S (nframes t)))
+      | Some frame => Some (mkws (sendbuf t ++ frame) (zlen data) (S (nframes t)) true)
       | None => None
       end
     else Some t in
   match created with
-  | None => (SFailV, mkws (sendbuf t) (req t) (S (nframes t)), [], s)     (* ValueError out of _create_frame *)
+  | None => (SFailV, mkws (sendbuf t) (req t) (S (nframes t)) (pend t), [], s)     (* ValueError out of _create_frame *)
   | Some t1 =>
     let '(o, s') := next_outcome (zlen (sendbuf t1)) s in                 (* self._socket.send(self._sendbuffer) *)
     match o with
     | Accept k =>
       let n := clip k (zlen (sendbuf t1)) in
       let buf' := zskip n (sendbuf t1) in                                 (* self._sendbuffer[length:] *)
-      let t2 := mkws buf' (req t1) (nframes t1) in
+      let t2 := mkws buf' (req t1) (nframes t1) (negb (is_nil buf') && pend t1) in
       (SWrote (if is_nil buf' then req t1 else 0), t2, ztake n (sendbuf t1), s')
     | Block => (SBlock, t1, [], s')
     | Fail => (SFail, t1, [], s')
@@ -153,7 +155,7 @@ Definition deframe (l : list Z) : option (list (list Z) * list Z) :=
   if forallb frame_wf fs then Some (map f_payload fs, rest) else None.
 
 (* ------------------------------------------------------------------ correspondence entries *)
-Definition enc_ws (t : wsst) : list Z := [zlen (sendbuf t); req t; Z.of_nat (nframes t)].
+Definition enc_ws (t : wsst) : list Z := [zlen (sendbuf t); req t; Z.of_nat (nframes t); if pend t then 1 else 0].
 
 Fixpoint dec_keys (n : nat) (l : list Z) : list (list Z) * list Z :=
   match n with
